@@ -18,8 +18,17 @@ LEVEL = "model_checking"
 
 SNAP = Fraction(1, 10**5)
 REL = Fraction(1, 10**20)
-CONSERVING = ("add_liquidity", "remove_liquidity", "collect_fee", "remove_all_liquidity", ".supply", ".withdraw", ".borrow",
-              ".repay", "change_collateral")
+CONSERVING_UNI = ("add_liquidity", "add_liquidity_by_tick", "remove_liquidity", "collect_fee", "remove_all_liquidity")
+CONSERVING_AAVE = ("supply", "withdraw", "borrow", "repay", "change_collateral")
+
+
+def conserving(kind: str) -> bool:
+    market, _, name = kind.partition(".")
+    if market.startswith("aave"):
+        return name in CONSERVING_AAVE
+    if market in ("uni", "squni"):
+        return name in CONSERVING_UNI
+    return False
 
 
 class Oracle:
@@ -68,7 +77,7 @@ class Oracle:
             part.violation(f"C03|{op.kind}|value-created|{status}",
                            f"{op.kind} ({status}) raised total net value by more than wallet dust", case,
                            {"delta": float(delta), "dust": float(dust), "label": op.label, "pre_nv": float(pre_nv)})
-        elif out.ok and any(c in op.kind for c in CONSERVING) and not op.meta.get("swap") and not op.meta.get("revalues"):
+        elif out.ok and conserving(op.kind) and not op.meta.get("swap") and not op.meta.get("revalues"):
             if abs(delta) > tol:
                 part.violation(f"C03|{op.kind}|not-conserved", f"{op.kind} does not conserve total net value up to dust", case,
                                {"delta": float(delta), "dust": float(dust), "label": op.label})
